@@ -20,7 +20,8 @@ RULE = ('Hypothesis-generated base scripts: a non-decreasing sequence of clock r
         'iteration budget), plus 0-2 generated faults. Each base script is executed as generated and then once '
         'for EVERY (iteration, processor position, action) with action in {raise Quit, quit_loop(world), '
         'quit_loop() through desper.default_loop, switch(), raise SwitchWorld (plain, clear_next, clear_current; '
-        'targets never loaded before, cached or cleared), raise RuntimeError}. Oracle = '
+        'targets never loaded before, cached or cleared), raise RuntimeError, switch() whose on_switch_in '
+        'listener in the entered world raises RuntimeError / Quit while the loop completes the switch}. Oracle = '
         'model of the clock: dt is 0 for the first iteration after each start() and the exact difference of '
         'consecutive readings otherwise (also across switches), same dt for all processors of a frame, '
         'processors after the faulting one do not run, Quit/quit_loop make start() return with running False and '
@@ -38,7 +39,9 @@ ASSUMPTIONS = [
 ]
 FINDINGS = {}
 ACTIONS = ['quit', 'quit_loop_w', 'quit_loop_default', 'switch', 'raise_switch', 'error', 'raise_switch_clear_next',
-           'raise_switch_clear_current']
+           'raise_switch_clear_current',
+           # switch(), and the on_switch_in listener of the entered world raises while the loop completes the switch
+           'switch_in_listener_raises', 'switch_in_listener_quits']
 
 
 class Boom(RuntimeError):
@@ -46,7 +49,7 @@ class Boom(RuntimeError):
 
 
 def decode_fault(p):
-    return [p % 16, p // 16 % 4, p // 64 % 8, p // 512 % 3]
+    return [p % 16, p // 16 % 4, p // 64 % 10, p // 640 % 3]
 
 
 def strategy():
@@ -58,7 +61,7 @@ def strategy():
         # what the time function returns: 0 floats (multiples of 1/8), 1 integers beyond 2**53 (nanosecond
         # clocks), 2 exact rationals - the deltas are the exact differences in each case
         'clock': st.integers(0, 2),
-        'faults': st.lists(st.integers(0, 16 * 4 * 8 * 3 - 1).map(decode_fault), max_size=2)})
+        'faults': st.lists(st.integers(0, 16 * 4 * 10 * 3 - 1).map(decode_fault), max_size=2)})
 
 
 class Proc(desper.Processor):
@@ -72,10 +75,20 @@ class Proc(desper.Processor):
 PROC_CLASSES = [type('Proc%d' % i, (Proc,), {}) for i in range(4)]     # a world holds one processor per type
 
 
-@desper.event_handler('on_quit')
+@desper.event_handler('on_quit', 'on_switch_in')
 class QuitListener:
     def __init__(self, run, wix):
         self.run, self.wix = run, wix
+
+    def on_switch_in(self, *a):
+        armed = self.run.arm_in
+        if armed is not None and armed[1] == self.wix:
+            self.run.arm_in = None
+            self.run.flags['switch_in_listener_raised'] += 1
+            if armed[0] == 'quit':
+                raise desper.Quit()
+            self.run.raised = Boom('injected while entering')
+            raise self.run.raised
 
     def on_quit(self, *a):
         self.run.quit_calls[self.wix] += 1
@@ -128,6 +141,7 @@ class Execution:
         self.raised = None
         self.expect_on_quit = collections.Counter()
         self.fired = set()
+        self.arm_in = None
 
     def viol(self, clause, **d):
         d['faults'] = self.fault_list
@@ -204,6 +218,13 @@ class Execution:
         # world switches: the target is NOT loaded by the harness (a never loaded or cleared handle is loaded by
         # the library on the way); which instance runs is learnt when the loop has switched
         self.next_cur = target
+        if action in ('switch_in_listener_raises', 'switch_in_listener_quits'):
+            # the exception leaves start() (Quit: start returns) while the loop is completing the switch; which
+            # world is current afterwards is read from the loop - what matters is that the NEXT start() processes
+            # that current world, with dt = 0 first
+            self.arm_in = ('quit' if action.endswith('quits') else 'error', target)
+            self.end_reason = 'quit' if action.endswith('quits') else 'error'
+            desper.switch(self.handles[target], from_world=proc.world if f[0] % 2 else None)
         if action == 'switch':
             desper.switch(self.handles[target], from_world=proc.world if f[0] % 2 else None)
         raise desper.SwitchWorld(self.handles[target], clear_next=(action == 'raise_switch_clear_next'),
@@ -231,7 +252,15 @@ class Execution:
                 orig_switch = self.loop.switch
 
                 def tracking_switch(handle, *a, **k):
-                    r = orig_switch(handle, *a, **k)
+                    try:
+                        r = orig_switch(handle, *a, **k)
+                    except BaseException:
+                        # a listener of the entered world raised: the loop tells which world is current now
+                        h = self.loop.current_world_handle
+                        self.cur = next(i for i, x in enumerate(self.handles) if x is h)
+                        self.next_cur = None
+                        self.instances[self.cur] = self.loop.current_world
+                        raise
                     if self.next_cur is not None:
                         self.cur, self.next_cur = self.next_cur, None
                     self.instances[self.cur] = self.loop.current_world
